@@ -193,6 +193,33 @@ def run(tier, seed, replay=None):
         for (desc, lens), m in zip(len_meta, lres):
             if lens != m: V.fail("correspondence(model/impl) spectrum lengths of the SVD sweep", dict(desc, impl=lens, model=m), failing_input=False)
             else: n_len_ok += 1
+    # ---- C02_centre_core_error / C02_norm2_centre_core on the implementation's own gauges: a train brought into the mixed gauge by lr_orthogonal and
+    #      rl_orthogonal (of the tail) has the norm of its centre core, and perturbing the centre core by D moves the tensor by exactly ||D||_F
+    n_gauge = 0
+    from torchtt._decomposition import lr_orthogonal, rl_orthogonal
+    for t_ in range(12 if tier == "quick" else 200):
+        d_ = rng.choice([2, 3, 4, 5]); N_ = [rng.choice([1, 2, 3, 4]) for _ in range(d_)]
+        cdt = rng.choice([torch.float64, torch.complex128])
+        x_ = torchtt.randn(N_, [1] + [rng.randint(1, 4) for _ in range(d_ - 1)] + [1], dtype=cdt)
+        try:
+            cl_, R_ = lr_orthogonal(x_.cores, x_.R, False)
+            k_ = rng.randrange(d_)
+            sub_ = rl_orthogonal(cl_[k_:], R_[k_:], False)[0] if k_ < d_ - 1 else cl_[k_:]
+            cores_ = [c.clone() for c in (list(cl_[:k_]) + list(sub_))]
+            D_ = torch.randn_like(cores_[k_])
+            c2_ = [c.clone() for c in cores_]; c2_[k_] = c2_[k_] + D_
+            y_, z_ = torchtt.TT(cores_), torchtt.TT(c2_)
+            nx = float(x_.full().abs().pow(2).sum().sqrt())
+            e1 = abs(float((z_.full() - y_.full()).abs().pow(2).sum().sqrt()) - float(D_.abs().pow(2).sum().sqrt()))
+            e2 = abs(float(y_.full().abs().pow(2).sum().sqrt()) - float(cores_[k_].abs().pow(2).sum().sqrt()))
+            e3_ = float((y_.full() - x_.full()).abs().pow(2).sum().sqrt())
+            n_gauge += 1
+            if e3_ > 1e-10 * max(nx, 1e-300): V.fail("gauge: lr_orthogonal / rl_orthogonal changed the tensor", {"N": N_, "centre": k_, "rel": e3_ / max(nx, 1e-300)})
+            if e1 > 1e-10 * max(1.0, nx) or e2 > 1e-10 * max(1.0, nx):
+                V.fail("gauge: in the mixed gauge of lr_orthogonal / rl_orthogonal the centre core does not carry the norm / a perturbation of it is not an isometry", {"N": N_, "centre": k_, "perturbation_defect": e1, "norm_defect": e2})
+        except Exception as ex:
+            V.fail("gauge measurement raises %s" % type(ex).__name__, {"N": N_, "exc": str(ex)[:200]})
+    dist["mixed-gauge isometry (centre_core_error) measured"] = n_gauge
     nviol = V.finish()
     cov = proofcheck.coverage(PID, obl, evaluations=n, distinct_nontrivial=len(set(json.dumps(m[0], sort_keys=True, default=str) for m in replay_meta)),
         rule=("x.round(eps, rmax) on TT tensors and TT matrices of order 1..7 built from cores: random, inflated (block-diagonal self-sum of an exactly low-rank tensor), "
